@@ -45,7 +45,7 @@ ExText(x) ==
 
 CDead ==
   [live |-> FALSE, kw |-> "", op |-> "none", ex |-> "nil", opts |-> {}, enc |-> <<>>, err |-> "none",
-   id |-> "", cat |-> "", vpol |-> "none", ppol |-> FALSE]
+   id |-> "", cat |-> "", vpol |-> "none", ppol |-> FALSE, lvl |-> {}]
 
 CFresh == [CDead EXCEPT !.live = TRUE]
 
@@ -99,6 +99,8 @@ CStep(s, c) ==
               [s |-> [s EXCEPT !.enc = IF c.pairs = <<>> THEN <<>> ELSE EncAddAll(s.enc, c.pairs)], ret |-> <<>>]
          [] c.op = "SetID" -> [s |-> [s EXCEPT !.id = c.v], ret |-> <<>>]
          [] c.op = "SetCategory" -> [s |-> [s EXCEPT !.cat = c.v], ret |-> <<>>]
+         [] c.op = "SetLogLevel"   -> [s |-> [s EXCEPT !.lvl = LvShift(s.lvl, c.args)], ret |-> <<>>]
+         [] c.op = "UnsetLogLevel" -> [s |-> [s EXCEPT !.lvl = LvUnshift(s.lvl, c.args)], ret |-> <<>>]
          [] c.op = "SetValidityPolicy" -> [s |-> [s EXCEPT !.vpol = c.mode], ret |-> <<>>]
          [] c.op = "SetPresentationPolicy" -> [s |-> [s EXCEPT !.ppol = c.on], ret |-> <<>>]
          [] c.op = "Free" -> [s |-> CDead, ret |-> <<"nil">>]
@@ -107,7 +109,7 @@ CObs(s) ==
   IF ~s.live THEN
     [init |-> "false", kw |-> "", op |-> "none", opctx |-> "", ex |-> "nil", len |-> 0, nesting |-> "false",
      cannest |-> "false", paren |-> "false", padded |-> "true", ronly |-> "false", isenc |-> "false",
-     enc |-> <<>>, err |-> "none", id |-> "", cat |-> "", valid |-> "err", str |-> "", bits |-> <<>>]
+     enc |-> <<>>, err |-> "none", id |-> "", cat |-> "", valid |-> "err", str |-> "", bits |-> <<>>, loglevels |-> ""]
   ELSE
     [init |-> "true", kw |-> s.kw,
      op |-> IF s.op = "none" THEN "none" ELSE OpText(s.op),
@@ -118,5 +120,6 @@ CObs(s) ==
      paren |-> B2S("paren" \in s.opts), padded |-> B2S("nspad" \notin s.opts), ronly |-> B2S(CRO(s)),
      isenc |-> B2S(Len(s.enc) > 0), enc |-> s.enc, err |-> s.err, id |-> s.id, cat |-> s.cat,
      valid |-> IF ValidOK(s) THEN "ok" ELSE "err", str |-> RenderC(s),
-     bits |-> [n \in 1..Len(CFlagOrder) |-> B2S(CFlagOrder[n] \in s.opts)]]
+     bits |-> [n \in 1..Len(CFlagOrder) |-> B2S(CFlagOrder[n] \in s.opts)],
+     loglevels |-> LvString(s.lvl)]
 =============================================================================
